@@ -45,8 +45,9 @@ META = {
         "FSMs up to 4 states",
         "_PySignalState.update used through its contract (body verified in C08)",
         "sync templates assume the domain reset is low (reset behaviour is C03's)",
-        "netlist lowering of the same semantics (emit_assign / emit_stmt) is checked in C04 against the "
-        "same reference, not here",
+        "netlist lowering of the same semantics (emit_assign / emit_stmt / NetlistDriver.emit_value): the control-flow programs are "
+        "also run through C04's netlist and RTLIL evaluators here (netlist::* obligations); the assignment-target catalogue at "
+        "netlist level is C04's",
     ],
     "bounds": {"quick": {"W": 3}, "thorough": {"W": 5}},
     "explanation": "staged statement contracts + DSL lowering contracts",
@@ -288,6 +289,13 @@ PROGRAMS = [
      [("switch", IN(0), [((9,), [_set(0, 0, 4, 4)]), (("-1-",), [_set(0, 0, 4, 1)]), (None, [_set(0, 0, 4, 6)]), ((), [_set(0, 0, 4, 2)])])]),
     ([(2, True)], [(4, False)],
      [("switch", IN(0), [((), [_set(0, 0, 4, 2)]), (("1-",), [_set(0, 0, 4, 1)]), ((1,), [_set(0, 0, 4, 3)])])]),
+    # an unconditional whole-signal assignment AFTER conditional / partial ones wins (program order, not "default first")
+    ([(1, False), (4, False)], [(4, False)],
+     [("if", [(IN(0), [_set(0, 0, 4, 1)])], None), _set(0, 0, 4, IN(1))]),
+    ([(2, False), (4, False)], [(4, False)],
+     [("switch", IN(0), [((1,), [_set(0, 0, 4, 3)]), (None, [_set(0, 1, 3, 2)])]), _set(0, 0, 4, IN(1))]),
+    ([(1, False), (4, False)], [(4, False)],
+     [_set(0, 0, 2, 1), ("if", [(IN(0), [_set(0, 2, 4, 3)])], [_set(0, 0, 4, 7)]), _set(0, 0, 4, IN(1)), ("if", [(IN(0), [_set(0, 3, 4, 0)])], None)]),
     # zero-width test
     ([(0, False)], [(4, False)],
      [("switch", IN(0), [((0,), [_set(0, 0, 4, 1)]), (None, [_set(0, 0, 4, 2)])])]),
@@ -584,6 +592,8 @@ def tasks(tier):
     chunk = 12
     out = [("chunk", tuple(ts[i:i + chunk])) for i in range(0, len(ts), chunk)]
     out += [("dsl", k, dom) for k in range(len(PROGRAMS)) for dom in ("comb", "sync")]
+    # the same programs through the netlist lowering (hdl/_ir.py) and the RTLIL back end: C04's evaluators, this property's programs
+    out += [("netlist", k, dom) for k in range(len(PROGRAMS)) for dom in ("comb", "sync")]
     out += [("fsm", k) for k in range(len(FSMS))]
     out += [("fsm-nested",)]
     return out
@@ -611,6 +621,12 @@ def run_task(task):
         return r
     if kind == "dsl":
         return check_dsl(task[1], task[2])
+    if kind == "netlist":
+        from . import c04
+        r = c04.unit_prog(("prog-sim", task[1], task[2]))
+        for o in r["obligations"]:
+            o["name"] = "netlist::" + o["name"]
+        return r
     if kind == "fsm":
         return check_fsm(task[1])
     if kind == "fsm-nested":
@@ -674,6 +690,11 @@ def _concrete_replay(m, model, name):
 
 def find_failing_input(res, ob):
     name = ob["name"]
+    if name.startswith("netlist::"):
+        from . import c04
+        ob2 = dict(ob)
+        ob2["name"] = name[len("netlist::"):]
+        return c04.find_failing_input(res, ob2)
     tname = name.split("::")[0].split("#")[0]
     model = ob.get("model")
     if model is None:
